@@ -256,16 +256,6 @@ func VerifC19VerifiedCredentialsList(st int) {
 	}
 }
 
-func VerifC19Deactivate() {
-	s, _ := verifService(1)
-	g := s.accountGroupCtx.group
-	pk, err := g.GetPubKey()
-	verif_assume(err == nil)
-	s.accountGroupCtx.cancel = func() {}
-	verif_assert(s.deactivateGroup(pk) == nil, "C19: deactivation succeeds")
-	verif_assert(s.getAccountGroup() == nil, "C19: after deactivating the account group the service has none (the state the handlers are checked in)")
-}
-
 func VerifC19Witness() {
 	s, _ := verifService(1)
 	req := &protocoltypes.ContactRequestSend_Request{}
